@@ -19,14 +19,14 @@
 #define V_CANARY(msg) ((void)0)
 #define V_COVER(c) ((void)0)
 #define V_IN(type, name) type name = (type)(VAL_##name)
-#define V_IN_ARR(type, name, n) type name[n] = VAL_##name
+#define V_IN_ARR(type, name, n) type name##_arr[n] = VAL_##name; type *name = name##_arr
 #else
 #define V_ASSUME(c) __CPROVER_assume(c)
 #define V_ASSERT(c, msg) __CPROVER_assert((c), msg)
 #define V_CANARY(msg) __CPROVER_assert(0, "CANARY " msg)
 #define V_COVER(c) __CPROVER_cover(c)
 #define V_IN(type, name) type name; { type name##_nd; name = name##_nd; }
-#define V_IN_ARR(type, name, n) type name[n]; { type name##_nd[n]; __CPROVER_array_copy(name, name##_nd); }
+#define V_IN_ARR(type, name, n) struct name##_s { type a[n]; } name##_nd, name##_cp; name##_cp = name##_nd; type *name = name##_cp.a
 #endif
 
 #endif
